@@ -320,9 +320,15 @@ public:
   /// or dequeue() operations will be woken up.
   void close()
   {
-    if (_closed.exchange(true, std::memory_order_acq_rel))
     {
-      return; // Already closed
+      // Set the flag while holding the mutex: a caller that has evaluated its wait
+      // predicate but not yet blocked still holds _mutex, so it cannot miss the
+      // notifications below (lost wake-up).
+      std::lock_guard<std::mutex> lock(_mutex);
+      if (_closed.exchange(true, std::memory_order_acq_rel))
+      {
+        return; // Already closed
+      }
     }
 
     // Wake all waiting threads
